@@ -540,8 +540,9 @@ func executeConstExpressionI32(importedGlobals []*GlobalInstance, expr *Constant
 		ret, _, _ = leb128.LoadInt32(expr.Data)
 	case OpcodeGlobalGet:
 		id, _, _ := leb128.LoadUint32(expr.Data)
-		g := importedGlobals[id]
-		ret = int32(g.Val)
+		// Value, not Val: a mutable global of an engine that owns its globals keeps the live value there.
+		lo, _ := importedGlobals[id].Value()
+		ret = int32(lo)
 	}
 	return
 }
@@ -568,19 +569,21 @@ func (g *GlobalInstance) initialize(importedGlobals []*GlobalInstance, expr *Con
 	case OpcodeGlobalGet:
 		id, _, _ := leb128.LoadUint32(expr.Data)
 		importedG := importedGlobals[id]
+		// Value, not Val: a mutable global of an engine that owns its globals keeps the live value there.
+		lo, hi := importedG.Value()
 		switch importedG.Type.ValType {
 		case ValueTypeI32:
-			g.Val = uint64(uint32(importedG.Val))
+			g.Val = uint64(uint32(lo))
 		case ValueTypeI64:
-			g.Val = importedG.Val
+			g.Val = lo
 		case ValueTypeF32:
-			g.Val = importedG.Val
+			g.Val = lo
 		case ValueTypeF64:
-			g.Val = importedG.Val
+			g.Val = lo
 		case ValueTypeV128:
-			g.Val, g.ValHi = importedG.Val, importedG.ValHi
+			g.Val, g.ValHi = lo, hi
 		case ValueTypeFuncref, ValueTypeExternref:
-			g.Val = importedG.Val
+			g.Val = lo
 		}
 	case OpcodeRefNull:
 		switch expr.Data[0] {
